@@ -31,10 +31,11 @@ class FieldVal(SObj):
         return self.truth
 
 
-def config_obj(I, tag="cfg"):
+def config_obj(I, tag="cfg", filtering_disabled=False):
+    """filtering_disabled: the Optional field innovation_filtering currently holds None (a legal value: filtering off)"""
     mod = I.load_module("formak.python")
     cls = I.module_attr(mod, "Config")
-    return SObj(cls, {f: FieldVal(I, f"{tag}.{f}") for f in CONFIG_FIELDS}, tag)
+    return SObj(cls, {f: (None if filtering_disabled and f == "innovation_filtering" else FieldVal(I, f"{tag}.{f}")) for f in CONFIG_FIELDS}, tag)
 
 
 class DiagFlatten(Contract):
@@ -291,10 +292,10 @@ def set_params_cases():
     return singles + pairs + triples
 
 
-def run_set_params(I, keys):
+def run_set_params(I, keys, filtering_disabled=False):
     """Execute the real set_params(**{k: fresh value}) in the interpreter; returns (adapter, values, outcome)."""
     cls = adapter_class(I)
-    cfg = config_obj(I)
+    cfg = config_obj(I, filtering_disabled=filtering_disabled)
     obj = SObj(cls, {k: SObj("Val", {}, f"old.{k}") for k in ALLOWED}, "adapter")
     obj.fields["config"] = cfg
     vals = {}
